@@ -124,3 +124,74 @@ func zzC07aOwnContract() {
 	vf.Assert("lock-free", vf.RUnlocked(&st.RWMutex))
 	vf.Reach("end")
 }
+
+// C07.a3: differential check of the sent storage against a reference model (one map per stream):
+// after any sequence of up to 3 operations on two streams, List of each stream equals the model.
+func zzC07aSequences() {
+	ctx := context.Background()
+	st := zzNewStorage()
+	ids := []uuid.UUID{zzUUID("s1"), zzUUID("s2")}
+	vf.Assume(ids[0] != ids[1])
+	model := []map[uint32]*DataPointGroup{{}, {}}
+	known := []bool{false, false} // the stream has a bucket (List succeeds)
+	// arbitrary pre-state: each stream may already hold one chunk
+	for s := 0; s < 2; s++ {
+		l := "pre" + string(rune('0'+s))
+		if vf.Choose(l+".stored", 2) == 1 {
+			seq := vf.U32(l + ".seq")
+			g := zzGroups(l + ".g")
+			st.Store(ctx, ids[s], seq, g)
+			model[s][seq] = g[0]
+			known[s] = true
+		}
+	}
+	n := 1 + vf.Choose("ops", 3)
+	for i := 0; i < n; i++ {
+		l := "op" + string(rune('0'+i))
+		who := vf.Choose(l+".stream", 2)
+		seq := vf.U32(l + ".seq")
+		switch vf.Choose(l+".kind", 3) {
+		case 0:
+			g := zzGroups(l + ".g")
+			st.Store(ctx, ids[who], seq, g)
+			// reference: overwrite the entry with equal key, else add
+			replaced := false
+			for k := range model[who] {
+				if k == seq {
+					model[who][k] = g[0]
+					replaced = true
+				}
+			}
+			if !replaced {
+				model[who][seq] = g[0]
+			}
+			known[who] = true
+		case 1:
+			_, err := st.Remove(ctx, ids[who], seq)
+			_, had := model[who][seq]
+			vf.Assert("remove-succeeds-iff-stored", (err == nil) == had)
+			delete(model[who], seq)
+		case 2:
+			st.Clear(ctx, ids[who])
+			model[who] = map[uint32]*DataPointGroup{}
+			known[who] = false
+		}
+	}
+	for s := 0; s < 2; s++ {
+		m, err := st.List(ctx, ids[s])
+		if err != nil {
+			vf.Assert("unlisted-stream-holds-nothing", len(model[s]) == 0)
+			continue
+		}
+		vf.Assert("same-number-of-chunks", len(m) == len(model[s]))
+		for k, g := range model[s] {
+			got, ok := m[k]
+			vf.Assert("chunk-listed-under-its-stream", ok && len(got) == 1)
+			if ok && len(got) == 1 {
+				vf.Assert("chunk-is-the-stored-one", got[0].DataID == g.DataID)
+			}
+		}
+	}
+	_ = known
+	vf.Reach("end")
+}
